@@ -544,11 +544,31 @@ class SNum(SRing):
         t = SRing._co(o)
         return True if t is None else mkbool(self.t != t)
 
+    @staticmethod
+    def _num(o):
+        t = SRing._co(o)
+        if t is None and isinstance(o, float) and o == o and o not in (float('inf'), float('-inf')):
+            from fractions import Fraction
+            fr = Fraction(o)                     # the float's exact value (comparisons of reals, no rounding involved)
+            t = z3.RealVal(f'{fr.numerator}/{fr.denominator}')
+        if t is None:
+            raise OutOfSubset('number compared with a value of an unmodelled kind')
+        return t
+
     def __lt__(self, o):
-        return mkbool(self.t < SRing._co(o))
+        return mkbool(self.t < SNum._num(o))
 
     def __gt__(self, o):
-        return mkbool(self.t > SRing._co(o))
+        return mkbool(self.t > SNum._num(o))
+
+    def __le__(self, o):
+        return mkbool(self.t <= SNum._num(o))
+
+    def __ge__(self, o):
+        return mkbool(self.t >= SNum._num(o))
+
+    def __abs__(self):
+        return SNum(z3.If(self.t >= 0, self.t, -self.t))
 
 
 # ------------------------------------------------------------------ characters / strings
